@@ -8,7 +8,7 @@ m = json.load(open(os.path.join(ROOT, "MANIFEST.json")))
 m["checks"] = []
 ids = [json.loads(l)["id"] for l in open(os.path.join(ROOT, "properties.jsonl"))]
 for pid in ids:
-    if pid not in PROPS or "manifest" not in PROPS[pid]:
+    if pid not in PROPS or "manifest" not in PROPS[pid] or not PROPS[pid].get("ready"):
         continue
     mf = PROPS[pid]["manifest"]
     m["checks"].append({
